@@ -134,6 +134,10 @@ func worker(c *core.Ctx, args []string) {
 		childVerify(args[1:])
 	case "pingpong":
 		childPingPong(args[1])
+	case "ownstore":
+		childStoreOwn(args[1:])
+	case "ownverify":
+		childVerifyOwn(args[1:])
 	case "seq": // debugging aid: print the counted call sequence of one untouched traced run
 		tierArg = c.Tier
 		dir := scratch()
@@ -1176,6 +1180,9 @@ func run(c *core.Ctx) {
 		c.NotExhaustive(fmt.Sprintf("quick tier: strace injection limited to N <= %d (fresh-close, all 18 syscalls) and N <= %d (restart, %v), process-wide injection limited to k <= %d; the thorough tier runs all syscalls and all ordinals in both variants with both tracers", quickMaxN, quickRestartMaxN, quickRestartSyscalls, quickGlobalMaxK))
 	}
 
+	if part("ownids") {
+		partOwnIDs(c)
+	}
 	c.Set("evaluations", c.Count("evaluations"))
 	c.Set("distinct_nontrivial", c.DistinctCount("nontrivial"))
 	c.Set("rule", "crash point = (i) stop after ack k in {0..4} x {Close, exit without Close, SIGKILL while idle}; "+
@@ -1212,6 +1219,13 @@ const (
 )
 
 func replay(c *core.Ctx, raw json.RawMessage) {
+	var oc ownCase
+	if json.Unmarshal(raw, &oc) == nil && oc.Kind == "ownids" {
+		if sig, what := runOwn(c, oc); sig != "" {
+			c.Violate(sig, what, oc)
+		}
+		return
+	}
 	var cs Case
 	if json.Unmarshal(raw, &cs) != nil {
 		return
